@@ -39,9 +39,9 @@ type History struct {
 
 // holder configuration: what the current holder asked for
 type config struct {
-	strict   bool
-	dialect  string
-	tkzDial  keywords.SQLDialect
+	strict     bool
+	dialect    string
+	tkzDial    keywords.SQLDialect
 	tkzDialSet bool
 }
 
